@@ -13,12 +13,29 @@ Definition MAX_DEP_IN_COUNT := 10.
 Definition MAX_DEP_OUT_COUNT := 10.
 
 Inductive guard := GUncond | GBinary | GTernary.
-Record dep := { dp_in : bool; dp_guard : guard }.          (* dp_in = true: "<-", false: "->" *)
+(* dp_in = true: "<-", false: "->".  Local definitions ("[ i = a .. b ]") introduced by the dependency:
+   dp_ldefs at the dependency level, dp_ct / dp_cf in front of the call of the true / false branch
+   (dp_cf = 0 unless the guard is ternary). *)
+Record dep := { dp_in : bool; dp_guard : guard; dp_ldefs : nat; dp_ct : nat; dp_cf : nat }.
 Inductive access := AccRead | AccWrite | AccRW | AccCtl.
 Record flow := { fl_access : access; fl_deps : list dep }.
 Record func := { fn_locals : nat;        (* parameters + local definitions of the task class *)
-                 fn_ldef : nat;          (* nb_max_local_def: locals introduced inside dependencies *)
+                 fn_pdefs : nat;         (* local-definition slots used by the definitions of those locals *)
                  fn_flows : list flow }.
+
+(* local-definition slots (the ldef[] array of the task's assignment structure).
+   The slots of the named locals come first; every dependency re-uses the slots after them: its own
+   definitions, then those of the call it makes (either branch of a ternary).  [dep_high] is one past
+   the highest slot the code generated for dependency d indexes. *)
+Definition dep_high (base : nat) (d : dep) : nat := base + dp_ldefs d + Nat.max (dp_ct d) (dp_cf d).
+(* what the generated code needs: the maximum over ALL dependencies of ALL flows *)
+Definition all_deps (f : func) : list dep := flat_map fl_deps (fn_flows f).
+Definition ldef_needed (f : func) : nat := list_max (fn_pdefs f :: map (dep_high (fn_pdefs f)) (all_deps f)).
+(* what jdf_assign_ldef_index computes into nb_max_local_def: a high-water mark updated after every
+   dependency, flow by flow (jdf2c.c declares ldef[nb_max_local_def] and tests the locals limit with it) *)
+Definition ldef_counted (f : func) : nat :=
+  fold_left (fun m fl => fold_left (fun m d => Nat.max m (dep_high (fn_pdefs f) d)) (fl_deps fl) m)
+            (fn_flows f) (fn_pdefs f).
 Inductive malformed := WellFormed | SyntaxError | UnboundVariable.
 Record program := { pg_mal : malformed; pg_funcs : list func }.
 
@@ -46,7 +63,7 @@ Definition func_ok (fixed : bool) (f : func) : bool :=
   (count_flows reads (fn_flows f) <=? MAX_PARAM_COUNT) &&
   (count_flows writes (fn_flows f) <=? MAX_PARAM_COUNT) &&
   (length (fn_flows f) <=? MAX_PARAM_COUNT) &&          (* "#if MAX_PARAM_COUNT < nb_flows" *)
-  (fn_locals f + fn_ldef f <=? MAX_LOCAL_COUNT).         (* jdf_fatal / "#if MAX_LOCAL_COUNT < nb_locals" *)
+  (fn_locals f + ldef_counted f <=? MAX_LOCAL_COUNT).    (* jdf_fatal / "#if MAX_LOCAL_COUNT < nb_locals" *)
 
 (* ptgpp (default mode: generate, then compile) exits with status 0 *)
 Definition accept (fixed : bool) (p : program) : bool :=
@@ -62,7 +79,7 @@ Definition flow_within (f : flow) : Prop :=
 Definition func_within (f : func) : Prop :=
   (forall fl, In fl (fn_flows f) -> flow_within fl) /\
   length (fn_flows f) <= MAX_PARAM_COUNT /\               (* .in[] / .out[] / .data[] hold at most all flows *)
-  fn_locals f + fn_ldef f <= MAX_LOCAL_COUNT.
+  fn_locals f + ldef_needed f <= MAX_LOCAL_COUNT.         (* named locals + every ldef[] slot the code indexes *)
 Definition within_limits (p : program) : Prop := forall f, In f (pg_funcs p) -> func_within f.
 
 (* boolean version, used by the driver *)
@@ -70,4 +87,4 @@ Definition flow_withinb (f : flow) : bool :=
   (sum_deps emitted true (fl_deps f) <=? MAX_DEP_IN_COUNT) && (sum_deps emitted false (fl_deps f) <=? MAX_DEP_OUT_COUNT).
 Definition within_limitsb (p : program) : bool :=
   forallb (fun f => forallb flow_withinb (fn_flows f) && (length (fn_flows f) <=? MAX_PARAM_COUNT)
-                    && (fn_locals f + fn_ldef f <=? MAX_LOCAL_COUNT)) (pg_funcs p).
+                    && (fn_locals f + ldef_needed f <=? MAX_LOCAL_COUNT)) (pg_funcs p).
